@@ -618,6 +618,70 @@ def twins_grammar(rng):
     return Gram(prods, {t: c for t, c in tn.items() if t in used})
 
 
+def mutual_grammar(rng):
+    for _ in range(50):
+        try:
+            return _mutual_grammar(rng)
+        except StopIteration:
+            continue
+    return _mutual_grammar(random.Random(2))
+
+
+def _mutual_grammar(rng):
+    """Family for lookaheads that travel around LOOPS of the automaton: 2-3 nonterminals calling each other behind a shared
+    terminal (A: a C | c ; C: a A | d — the state after `a` has several kernel items feeding each other through the closure and
+    a transition to itself), used bare and in deeper contexts with different followers (S: A | C | x x x A y | x x x C z)."""
+    tn = {"T" + c: c for c in T_CHARS}
+    names = list(tn)
+    rng.shuffle(names)
+    it = iter(names)
+    k = rng.randint(2, 3)
+    nts = ["M%d" % i for i in range(k)]
+    step = next(it)
+    prods = []
+    for i, nt in enumerate(nts):
+        nxt = nts[(i + 1) % k] if rng.random() < 0.8 else rng.choice(nts)
+        st = step if rng.random() < 0.8 else next(it)
+        prods.append((nt, [st, nxt]))
+        prods.append((nt, [next(it)]))
+    alts = []
+    for nt in rng.sample(nts, rng.randint(1, k)):
+        alts.append([nt])
+    lead = next(it)
+    depth = rng.randint(1, 3)
+    fol = [next(it), step]
+    for j, nt in enumerate(rng.sample(nts, rng.randint(1, k))):
+        alts.append([lead] * depth + [nt, fol[j % 2] if rng.random() < 0.8 else lead])
+    seen, top = set(), []
+    for a in alts:
+        if tuple(a) not in seen:
+            seen.add(tuple(a))
+            top.append(("S", a))
+    prods = top + prods
+    refd = {x for _, rhs in prods for x in rhs}
+    changed = True
+    while changed:      # keep only rules reachable from S
+        reach = {"S"}
+        todo = ["S"]
+        while todo:
+            x = todo.pop()
+            for l, rhs in prods:
+                if l == x:
+                    for y in rhs:
+                        if y not in reach:
+                            reach.add(y)
+                            todo.append(y)
+        new = [p for p in prods if p[0] in reach]
+        changed = len(new) != len(prods)
+        prods = new
+    order = {}
+    for l, _ in prods:
+        order.setdefault(l, len(order))
+    prods.sort(key=lambda p: order[p[0]])
+    used = {x for _, rhs in prods for x in rhs if x in tn}
+    return Gram(prods, {t: c for t, c in tn.items() if t in used})
+
+
 def annotate(rng, g, p_prod=0.4, p_term=0.2, p_rule=0.1):
     """random disambiguation meta-data on productions, terminals and rules"""
     choices = ["left", "right", "reduce", "shift", "nops", "nopse", "5", "15", "20"]
